@@ -879,14 +879,14 @@ class ContentAttrParser(object):
 
     def parse(self):
         try:
-            # Check if the attr name is charset
-            # otherwise return
-            self.data.jumpTo(b"charset")
-            self.data.position += 1
-            self.data.skip()
-            if not self.data.currentByte == b"=":
-                # If there is no = sign keep looking for attrs
-                return None
+            # Look for "charset" followed by "="; without the = sign keep
+            # looking for the next "charset"
+            while True:
+                self.data.jumpTo(b"charset")
+                self.data.position += 1
+                self.data.skip()
+                if self.data.currentByte == b"=":
+                    break
             self.data.position += 1
             self.data.skip()
             # Look for an encoding between matching quote marks
